@@ -32,6 +32,14 @@ Theorem C17_expired_emitted : forall E s id flush n rd tadd, N.eqb id 0 = false 
 Proof. exact expired_emitted. Qed.
 Print Assumptions C17_expired_emitted.
 
+(* "oldest first": when the clock readings used to open groups never decrease over the history (any interleaving of critical
+   sections), the gate lists the groups by non-decreasing expiry — so the walks above, which emit in list order, emit the group
+   that expires first first *)
+Theorem C17_groups_sorted_by_expiry : forall E l,
+  0 <= expiration_cfg E -> Sorted.StronglySorted Z.le (add_times l) -> Sorted.StronglySorted Z.le (map gexp (groups (arun E l))).
+Proof. exact groups_sorted_by_expiry. Qed.
+Print Assumptions C17_groups_sorted_by_expiry.
+
 (* after a successful FlushAll / Close nothing remains gated and every previously gated group was emitted exactly once,
    oldest first: sent through the Broker when one is configured, dropped otherwise *)
 Theorem C17_flushall_empties : forall E s, snd (step E s FlushAll) = RNil ->
